@@ -35,7 +35,17 @@ def _model_inputs(model, S):
     import z3
     from .sym import to_concrete
     out = {}
+    from .seq import SymSeq
+    from .sym import SV, z3val_to_py
     for name, sv in S.inputs.items():
+        if isinstance(sv, SymSeq):
+            try:
+                n = to_concrete(model, sv.length)
+                n = max(0, min(int(n), 64))
+                out[name] = [_ser(z3val_to_py(model.eval(sv.f(z3.IntVal(i)), model_completion=True), sv.kind)) for i in range(n)]
+            except Exception as e:
+                out[name] = []
+            continue
         try:
             v = to_concrete(model, sv)
         except Exception:
@@ -54,6 +64,14 @@ def _ser(v):
     if isinstance(v, float):
         return repr(v)
     return str(v)
+
+
+def _serx(v):
+    if hasattr(v, "tolist") and not isinstance(v, (str, bytes)):
+        v = v.tolist()
+    if isinstance(v, (list, tuple)):
+        return [_ser(x) for x in v]
+    return _ser(v)
 
 
 def run_native(po, shape, values=None, rng=None, strict=False):
@@ -92,7 +110,10 @@ def replay_failure(po, shape, clause, values, seed, tries=150):
     for i in range(tries):
         pert = {}
         for k, v in values.items():
-            pert[k] = _perturb(v, rng, S.kinds.get(k))
+            if isinstance(v, list):
+                pert[k] = [_perturb(x, rng, ("Decimal",)) for x in v]
+            else:
+                pert[k] = _perturb(v, rng, S.kinds.get(k))
         results, rejected, exc2, _ = run_native(po, shape, pert)
         if not rejected and _clause_false(results, clause):
             info["search"] = {"tries": i + 1, "found": True}
@@ -103,7 +124,7 @@ def replay_failure(po, shape, clause, values, seed, tries=150):
         results, rejected, exc2, S2 = run_native(po, shape, None, rng)
         if not rejected and _clause_false(results, clause):
             info["search"] = {"tries": tries + i + 1, "found": True, "by": "range sampling"}
-            return True, {k: _ser(v) for k, v in S2.inputs.items()}, info
+            return True, {k: _serx(v) for k, v in S2.inputs.items()}, info
     info["search"] = {"tries": tries * 3, "found": False}
     return False, values, info
 
@@ -130,6 +151,10 @@ def _perturb(v, rng, kind):
 
 
 def _clause_false(results, clause):
+    if not any(n == clause for n, _, _ in results):
+        # the failed obligation has no native counterpart (loop invariant, callee precondition): any
+        # postcondition of the same PO failing natively is the failing input for it
+        return any(not ok for n, ok, _ in results)
     return any(n == clause and not ok for n, ok, _ in results)
 
 
@@ -147,6 +172,8 @@ def run_po_task(prop, po_index, shape, tier, seed):
         from .api import SymScenario
         from .interp import SOURCES
         import z3
+        if po.strength == "B":
+            return run_bounded_task(po, shape, tier, seed, rec, t0)
         scen = {}
 
         def body(it, path):
@@ -216,6 +243,46 @@ def run_po_task(prop, po_index, shape, tier, seed):
     return rec
 
 
+def run_bounded_task(po, shape, tier, seed, rec, t0):
+    """Bounded stand-in: the contract text is evaluated natively on the real code for N seeded inputs.
+    Never counted as proved."""
+    n = po.config.get("bounded_samples", {"quick": 300, "thorough": 5000}).get(tier, 300)
+    rng = random.Random(seed * 104729 + 7)
+    clauses, failures = {}, []
+    ran = rej = 0
+    excs = []
+    for i in range(n):
+        results, rejected, exc, S = run_native(po, shape, None, rng)
+        if rejected:
+            rej += 1
+            continue
+        ran += 1
+        if exc:
+            excs.append(exc)
+            c = clauses.setdefault("no-unexpected-exception", {"kind": "bounded", "instances": 0, "unsat": 0, "sat": 0, "unknown": 0, "seconds": 0.0, "trivial": 0})
+            c["instances"] += 1
+            c["sat"] += 1
+            if not any(f["clause"] == "no-unexpected-exception" for f in failures):
+                failures.append({"clause": "no-unexpected-exception", "kind": "bounded", "path": -1, "model": {}, "reproduced": True,
+                                 "replay_inputs": {k: _serx(v) for k, v in S.inputs.items()}, "replay_info": {"native_exception": exc},
+                                 "verifier_output": "native evaluation raised: " + exc})
+        for name, ok, detail in results:
+            c = clauses.setdefault(name, {"kind": "bounded", "instances": 0, "unsat": 0, "sat": 0, "unknown": 0, "seconds": 0.0, "trivial": 0})
+            c["instances"] += 1
+            c["unsat" if ok else "sat"] += 1
+            if not ok and not any(f["clause"] == name for f in failures):
+                failures.append({"clause": name, "kind": "bounded", "path": -1, "model": {}, "reproduced": True,
+                                 "replay_inputs": {k: _serx(v) for k, v in S.inputs.items()}, "replay_info": {"detail": detail},
+                                 "verifier_output": f"native evaluation of clause {name} is False ({detail})"})
+    rec.update({"paths": 0, "infeasible": 0, "unsupported": [], "clauses": clauses, "failures": failures, "covers_expected": [],
+                "functions": [], "assumptions": {f"bounded stand-in: {ran} seeded native evaluations (precondition rejected {rej})": 1},
+                "solver_s": 0.0, "feas_calls": 0, "vc_calls": 0, "unknown_feas": 0, "covers": {},
+                "native": {"ran": ran, "rejected": rej, "clause_failures": [], "exceptions": excs[:3]}, "wall_s": time.time() - t0})
+    if ran == 0:
+        rec["unsupported"] = ["bounded stand-in ran zero admissible samples"]
+    return rec
+
+
 def ex_covers(ex, po):
     out = {}
     for lab in po.covers:
@@ -241,7 +308,7 @@ def native_sampling(po, shape, seed, n):
             excs.append(exc)
         for name, ok, detail in results:
             if not ok and len(fails) < 5:
-                fails.append({"clause": name, "inputs": {k: _ser(v) for k, v in S.inputs.items()}, "detail": detail})
+                fails.append({"clause": name, "inputs": {k: _serx(v) for k, v in S.inputs.items()}, "detail": detail})
     return {"ran": ran, "rejected": rej, "clause_failures": fails, "exceptions": excs}
 
 
